@@ -150,6 +150,35 @@ type tManyFields struct {
 	Z, Y, X, W, V, U, T, S, R, Q int
 }
 
+// named unsupported kinds, occurring several times
+type tCallback func(int) error
+type tSignal chan struct{}
+type tPhase complex64
+type tIntKeyed map[int]string
+
+type tHooks struct {
+	Name   string    `json:"name"`
+	Before tCallback `json:"before"`
+	After  tCallback `json:"after"`
+	Done   tSignal   `json:"done"`
+}
+
+type tHooksDeep struct {
+	List  []tCallback          `json:"list"`
+	ByKey map[string]tCallback `json:"by_key"`
+	P1    *tPhase              `json:"p1"`
+	P2    tPhase               `json:"p2"`
+	K1    tIntKeyed            `json:"k1"`
+	K2    []tIntKeyed          `json:"k2"`
+	OK    int                  `json:"ok"`
+}
+
+type tNestedHooks struct {
+	A tHooks  `json:"a"`
+	B *tHooks `json:"b"`
+	C []tHooks
+}
+
 type tTwice struct {
 	First  tTags `json:"first"`
 	Second tTags `json:"second"`
@@ -204,6 +233,10 @@ func init() {
 	add("map[int]string", map[int]string{}, false, true)
 	add("chan int", make(chan int), false, true)
 	add("[]func()", []func(){}, false, true)
+	add("tHooks", tHooks{}, false, true)
+	add("tHooksDeep", tHooksDeep{}, false, true)
+	add("tNestedHooks", tNestedHooks{}, false, true)
+	add("[]tCallback", []tCallback{}, false, true)
 }
 
 // corpusIndex finds a corpus type by name.
